@@ -217,6 +217,15 @@ def base_languages():
         out[f'INH:{i}'] = families.inh_lang(shapes[i % len(shapes)])
     from ..refgraph import gops_lang, gops2_lang
     out.update(families.fr_variants())
+    # both ends of an association use the SAME field name, between unrelated types (and between a type and
+    # a subtype of the other end): lookups must answer in both orientations
+    out['samefield'] = langs.spec([
+        langs.asset('Machine', steps=[langs.step('use', 'or', reaches=[langs.COL(langs.F('peers'), langs.S('serve'))])]),
+        langs.asset('Laptop', sup='Machine'),
+        langs.asset('Service', steps=[langs.step('serve', 'or', reaches=[langs.COL(langs.F('peers'), langs.S('use'))])]),
+        langs.asset('Daemon', sup='Service'),
+    ], [langs.assoc('Link', 'Machine', 'peers', '*', '*', 'peers', 'Service'),
+        langs.assoc('Back', 'Service', 'owners', '0..1', '*', 'owned', 'Machine')], lang_id='org.verif.samefield')
     out['GOPS'] = gops_lang()
     out['GOPS2'] = gops2_lang()
     out['SEM:base'] = families.sem_lang([langs.step('s0', 'or', reaches=[langs.COL(langs.UNI(langs.F('rights'), langs.V('vdown')), langs.S('t'))]),
